@@ -66,8 +66,8 @@ def _sites(tier):
 
 
 def _file(sites):
-    out = ["from inline_snapshot import snapshot\n\n\nclass BadRepr:\n    def __eq__(self, other):\n        return isinstance(other, BadRepr)\n    def __repr__(self):\n        raise RuntimeError('no repr')\n\n\n"
-           "def test_000_bad_repr():\n    try:\n        assert BadRepr() == snapshot()\n    except Exception:\n        pass\n\n"]
+    out = ["from inline_snapshot import snapshot\n\n\nclass BadRepr:\n    def __eq__(self, other):\n        return True if isinstance(other, BadRepr) else NotImplemented\n    def __repr__(self):\n        raise RuntimeError('no repr')\n\n\n"
+           "def test_000_bad_repr():\n    try:\n        assert BadRepr() == snapshot(1)\n    except Exception:\n        pass\n\n"]
     G = 25  # sites per test function: keeps pytest's per-test overhead out of the cold processes
     for g in range(0, len(sites), G):
         out.append("\ndef test_%d():\n" % (g // G))
